@@ -18,6 +18,7 @@ RULE = (
     "contour point back through the model's OWN cdfs and through the independent reference model and checks radius, "
     "direction, point count, distinct directions, 2-D angles and the 2-D IFORM maximum. Non-trivial = beta > 0 and at least "
     "one conditional variable; distinct = distinct (spec signature, alpha, n_points, method)."
+    ' Also: every third case repeats the contours after the dependence parameters of the SAME model were changed in place (re-fit history); every fourth case uses the same law in other units (1e-6..1e5).'
 )
 ASSUMPTIONS = [
     "reference model (vmon/refmodel.py, specs.RefModel) for tail-aware Rosenblatt transforms",
